@@ -451,5 +451,10 @@ def main_wrapper(fn, prop, tier, seed):
     except subprocess.TimeoutExpired as e:
         log(f"TOOL-ERROR property={prop}: timeout {e}")
         rc = 2
+    except Exception:
+        # a defect of the machinery itself is a tool error too, never a verdict (an uncaught exception would exit with 1)
+        import traceback
+        log(f"TOOL-ERROR property={prop}: unexpected exception in the pipeline\n" + traceback.format_exc())
+        rc = 2
     log(f"[done] {prop} {tier} rc={rc} wall={time.time()-run.t0:.1f}s")
     return rc
